@@ -162,6 +162,88 @@ def sparse_charge_seqs(rng, n):
     return out
 
 
+def boundary_lengths(heavy=False):
+    """lengths at and next to powers of two and round thousands (and the blob counts N-4 / N-5 at such values): where strides, block
+    sizes, padded transforms and `x[-rest:]` leftovers of a vectorised rewrite change behaviour"""
+    out = set()
+    for m in ((1024, 2048) if not heavy else (512, 1024, 2048, 4096)):
+        out.update([m - 1, m, m + 1, m + 2, m + 4, m + 5])
+    out.update([1000, 1001, 2000, 2001] if not heavy else [1000, 1001, 2000, 2001, 3000, 3001, 4000, 4001])
+    return sorted(out)
+
+
+def boundary_seqs(rng, heavy=False, ends="KE"):
+    """one chain per boundary length: charged residues at BOTH termini, a moderately charged interior"""
+    out = []
+    for n in boundary_lengths(heavy):
+        mid = "".join(rng.choice("KRDEGSGSQNAP") for _ in range(n - 2))
+        out.append(ends[0] + mid + ends[1])
+    return out
+
+
+def charged_count_seqs(rng, heavy=False):
+    """chains whose NUMBER OF CHARGED residues is 1000 / 1001 / 1024 / 1025 (heavy: 2001 too): all charged, and scattered among neutrals"""
+    out = []
+    for c in ((1000, 1001, 1025) if not heavy else (1000, 1001, 1024, 1025, 2001)):
+        out.append("".join(rng.choice("KE") for _ in range(c)))
+        l = [rng.choice("KRDE") for _ in range(c)] + [rng.choice("GSQNAP") for _ in range(c * 4 // 5 - 1)]
+        rng.shuffle(l)
+        out.append("".join(l))
+    out.append("K" * 1001)
+    return out
+
+
+def sparse_clustered_seqs(rng, n):
+    """long, very weakly charged chains (155-900 residues, 3-8 charged) whose few charges sit TOGETHER: three or more within five
+    consecutive positions, somewhere in the interior or at a terminus"""
+    out = []
+    for _ in range(n):
+        L = rng.randint(155, 900)
+        s = [rng.choice("GSQNTAP") for _ in range(L)]
+        k = rng.randint(3, min(8, max(3, L // 62)))
+        at = rng.choice([0, L - 6, rng.randint(0, L - 6), rng.randint(0, L - 6)])
+        first = rng.randint(3, min(5, k))
+        for i in rng.sample(range(at, at + 5), first) if first < 5 else range(at, at + 5):
+            s[i] = rng.choice("KRDE")
+        for _j in range(k - first):
+            s[rng.randrange(L)] = rng.choice("KRDE")
+        out.append("".join(s))
+    return out
+
+
+def block_arrangements(rng, n, min_neut=18, max_neut=34):
+    """block-ordered chains with at least 18 neutral residues: neutral^a | one sign^p | neutral^b | other sign^q | neutral^c with a, c
+    anywhere in 0..20 (also beyond the six end-neutrals the delta-max scan tries), one sign often a lone residue or a pair; more than half
+    of them with a short neutral gap (2-4) between the charged blocks, 0-4 neutrals at one end and all the others piled up at the other"""
+    out = []
+    neut = lambda k: "".join(rng.choice("GSAQN") for _ in range(k))
+    for _ in range(n):
+        n0 = rng.randint(min_neut, max_neut)
+        s1, s2 = rng.choice([("KR", "DE"), ("DE", "KR")])
+        if rng.random() < 0.65:
+            b = rng.choice([2, 3, 3, 4])
+            short = rng.choice([0, 0, 1, 3, 4])
+            p = rng.choice([1, 1, 2, 2, 3])
+            q = rng.randint(7, 14)
+            strict = rng.random() < 0.6
+            if strict:
+                n0, b, short, p, q = rng.randint(18, 26), 3, rng.choice([0, 0, 1]), rng.choice([1, 2]), rng.randint(7, 12)
+            minority, majority = "".join(rng.choice(s1) for _ in range(p)), "".join(rng.choice(s2) for _ in range(q))
+            first, second = (minority, majority) if (strict or rng.random() < 0.8) else (majority, minority)
+            sq = neut(short) + first + neut(b) + second + neut(n0 - short - b)
+            out.append(sq if rng.random() < 0.5 else sq[::-1])
+            continue
+        a = rng.randint(0, min(20, n0))
+        c = rng.randint(0, min(20, n0 - a))
+        b = n0 - a - c
+        p = rng.choice([1, 1, 2, 3, rng.randint(1, 9)])
+        q = rng.choice([rng.randint(4, 12), rng.randint(1, 9)])
+        blocks = [neut(a), "".join(rng.choice(s1) for _ in range(p)), neut(b), "".join(rng.choice(s2) for _ in range(q)), neut(c)]
+        if rng.random() < 0.5:
+            blocks[1], blocks[3] = blocks[3], blocks[1]
+        out.append("".join(blocks))
+    return out
+
 # words over the residue letters that can also be read differently: three-letter codes, float literals
 AMBIGUOUS_WORDS = ["ASPARGLYS", "SERARGASPLYS", "METSERASPARGTHRLYSGLYASPVALARG", "ALAGLYSERTHRVALTRPTYRPHEMETCYS", "HISASNGLNILEASPLYSARGASPSER",
                    "NAN", "INF", "INFINITY", "nan", "Inf", "GLY", "ASP", "LYS", "ARGLYS"]
